@@ -1597,6 +1597,26 @@ def merge_nested_comprehensions(source: str) -> str:
                     new_generators.append(comprehension)
                     continue
 
+                # The variables of the inner comprehension become variables of the outer one, and
+                # the inner target gets the name of the outer target: that must not change what
+                # any name refers to.
+                inner = comprehension.iter
+                inner_targets = _names_in(*(generator.target for generator in inner.generators))
+                outside_inner = _names_in(
+                    *(child for child in ast.iter_child_nodes(node) if child is not comprehension),
+                    comprehension.target,
+                    *comprehension.ifs,
+                )
+                if (
+                    (inner_targets - {target_name_inner}) & outside_inner
+                    or target_name_inner in _names_in(inner.generators[0].iter)
+                    or (
+                        comprehension.target.id != target_name_inner
+                        and comprehension.target.id in _names_in(inner)
+                )):
+                    new_generators.append(comprehension)
+                    continue
+
                 tf = RenameTransformer(target_name_inner, comprehension.target.id)
 
                 # NodeTransformer edits in place, and comprehension.iter belongs to the tree
